@@ -337,6 +337,9 @@ partial def runSeq (dir : String) (lines : Array String) (out : IO.FS.Stream) : 
         if s.dead then pure () else
         let (s', ls) := stepOp s (nat! k) rest implRes
         for l in ls do out.putStrLn l
+        -- C18: the content a device opened on the file alone has to show when need_flush is false
+        if !s'.dev.needFlush && !s'.dead then
+          out.putStrLn s!"{k} flatnow {flatAll s'.flat 512}"
         st := some s'
       | none => pure ()
     | ["end"] =>
